@@ -94,6 +94,11 @@ def main():
     res.append(semantic('mv2lean.py','fast_down: E0 on the left',[(G3,"return (fast_homo(mv) ^ E0) * E0","return E0 * (fast_homo(mv) ^ E0)")]))
     res.append(semantic('mv2lean.py','euc_dist: -1.0*dot',[(G3,"return math.sqrt(-2.0*dot_result)","return math.sqrt(-1.0*dot_result)")]))
     res.append(harmless('mv2lean.py','fast_up: terms reordered',[(G3,"return mv - no + (0.5 * ((mv * mv) * ninf))","return (0.5 * ((mv * mv) * ninf)) + mv - no")]))
+    RP='clifford/tools/g3c/rotor_parameterisation.py'
+    res.append(semantic('valexp2lean.py','val_exp: t_par / t_nor swapped in R',[(RP,"R_val = coef_val + gmt_func(coef_val, mult_with_ninf(t_nor_val)) + \\\n        np.sinc(phi/np.pi) * mult_with_ninf(t_par_val)","R_val = coef_val + gmt_func(coef_val, mult_with_ninf(t_par_val)) + \\\n        np.sinc(phi/np.pi) * mult_with_ninf(t_nor_val)")]))
+    res.append(semantic('valexp2lean.py','val_exp: t_par = t + t_nor',[(RP,"t_par_val = t_val - t_nor_val","t_par_val = t_val + t_nor_val")]))
+    res.append(semantic('valexp2lean.py','val_exp: P_n = I3 * P is fine, but coef uses cos for sin',[(RP,"coef_val = np.sin(phi) * P_val\n    coef_val[0] += np.cos(phi)","coef_val = np.cos(phi) * P_val\n    coef_val[0] += np.sin(phi)")]))
+    res.append(harmless('valexp2lean.py','val_exp: sum reordered',[(RP,"R_val = coef_val + gmt_func(coef_val, mult_with_ninf(t_nor_val)) + \\\n        np.sinc(phi/np.pi) * mult_with_ninf(t_par_val)","R_val = np.sinc(phi/np.pi) * mult_with_ninf(t_par_val) + coef_val + \\\n        gmt_func(coef_val, mult_with_ninf(t_nor_val))")]))
     shutil.rmtree(SCR, ignore_errors=True)
     print("all as expected" if all(res) else "SOME UNEXPECTED")
     return 0 if all(res) else 1
